@@ -34,7 +34,9 @@ RULE = ('streams: vol = Segmentation(pixel_array=Volume) with a random admissibl
         'sub = sub-volume requests (slice/row/column start/end, 1-based, 0-based, negative, out of range); pyr = pyramids '
         '(mask rank 2/3/4, factor lists, several pixel arrays); place = planes placed explicitly (plane_positions + plane_orientation '
         '+ pixel_measures with / without SpacingBetweenSlices, mostly not parallel to the sources, omission leaving non-adjacent '
-        'planes); tiledpos = tiled segmentations placed by the user at the source origin or off it in exactly one coordinate.  One case = one (object, read call).  Non-trivial = accepted '
+        'planes); tiledpos = tiled segmentations placed by the user at the source origin or off it in exactly one coordinate; '
+        'frames (inside vol / place / src / tiled / tiledpos) = every stored frame or tile: segment, position / offset, DimensionIndexValues '
+        'in stored order, in memory and after a bytes round trip.  One case = one (object, read call).  Non-trivial = accepted '
         'read of an object with at least one non-empty plane, distinct by (stream, direction, handedness, shape, options, '
         'request).')
 ASSUMPTIONS = [
@@ -45,8 +47,12 @@ ASSUMPTIONS = [
     'with exact multiples',
     'pixel encoding / decoding of frames (C01) and segment selection (C02) are taken from the stored frames as decoded '
     'by the library itself; this property only places them',
+    'planes of one object lie at pairwise different distances along the normal (coincident planes are refused by the '
+    'constructor: theorem coincident_planes_refused; not drawn for segmentations, drawn for images as duplicate_position)',
+    'thin slices are dyadic (1/16, 1/64, 1/1024) so that positions stay exact decimals of at most 16 characters',
 ]
-MODELLED_NOT_VERIFIED = ['numpy linear algebra (cross, dot, argsort, unique, round)', 'pydicom DS formatting',
+MODELLED_NOT_VERIFIED = ['numpy linear algebra (cross, dot, argsort, unique incl. return_index / axis=0, round)',
+                         'compute_tile_positions_per_frame (tile grid order and arithmetic: pinned by C10 / C12, here compared per tile)', 'pydicom DS formatting',
                          'SQLite frame look-up table', 'pillow resize (pyramid pixel content is not part of this property)']
 
 # ---------------------------------------------------------------------------------------------- numbers
